@@ -127,10 +127,48 @@ def mult_min_energies(b, order, k):
     return emin, [((low >> i) & 1) for i in range(k)], idx, N
 
 
+def mult_correct_products(b, n, m):
+    """for every operand pair (a, b): minimum energy over the internal variables with p fixed to a*b (exact, integer
+    coefficients; 2^(#internal) assignments per pair).  Returns the list of (a, b, min energy) whose correct product is not a
+    ground state, or None when there are too many internal variables."""
+    vs = list(b.variables)
+    fixed = [f'a{i}' for i in range(n)] + [f'b{i}' for i in range(m)] + [f'p{i}' for i in range(n + m)]
+    if any(v not in vs for v in fixed):
+        return None
+    internal = [v for v in vs if v not in fixed]
+    k = len(internal)
+    if k > 20:
+        return None
+    idx = {v: i for i, v in enumerate(internal)}
+    ar = np.arange(1 << k, dtype=np.int64)
+    ibits = [((ar >> i) & 1).astype(np.int32) for i in range(k)]
+    lin = {v: int(b.get_linear(v)) for v in vs}
+    quad = [(u, v, int(q)) for u, v, q in b.iter_quadratic()]
+    wrong = []
+    for a in range(1 << n):
+        for bb in range(1 << m):
+            p = a * bb
+            val = {f'a{i}': (a >> i) & 1 for i in range(n)}
+            val.update({f'b{i}': (bb >> i) & 1 for i in range(m)})
+            val.update({f'p{i}': (p >> i) & 1 for i in range(n + m)})
+            e = np.full(1 << k, int(b.offset), dtype=np.int32)
+            for v, c in lin.items():
+                if c:
+                    e += c * (val[v] if v in val else ibits[idx[v]])
+            for u, v, q in quad:
+                xu = val[u] if u in val else ibits[idx[u]]
+                xv = val[v] if v in val else ibits[idx[v]]
+                e += q * (xu * xv)
+            mn = int(e.min())
+            if mn != 0:
+                wrong.append((a, bb, mn))
+    return wrong
+
+
 def mult_cases(ctx, r, lines, checks):
-    sizes = [(1, 1), (2, 1), (1, 2), (3, 1), (1, 3), (2, 2), (2, 3), (3, 2), (2, None)]
+    sizes = [(1, 1), (2, 1), (1, 2), (3, 1), (1, 3), (2, 2), (2, 3), (3, 2), (2, None), (3, 3)]
     if not ctx.quick:
-        sizes += [(3, 3), (4, 2), (2, 4), (3, None), (4, 1)]
+        sizes += [(4, 2), (2, 4), (3, None), (4, 1)]
     sizes += [(0, 1), (2, -1), (-1, None)]
     for n, m in sizes:
         src = (HDR + f'n, m = {n}, {m}\nb = G.multiplication_circuit(n, m)\nm = m or n\n'
@@ -167,6 +205,18 @@ def mult_cases(ctx, r, lines, checks):
         if missing:
             bad = True
             ctx.fail('property', site, cls, f'multiplication_circuit({n}, {m}): product variables {missing} do not exist (variables: {vs})', repro=src)
+        elif len(vs) > ctx.scale(22, 27):
+            # too many assignments for the quick tier: per operand pair, minimise over the internal wires with p = a*b
+            wrong = mult_correct_products(b, n, mm)
+            if wrong:
+                a_, b_, mn = wrong[0]; bad = True
+                ctx.fail('property', site, cls, f'multiplication_circuit({n}, {m}): a={a_} b={b_}: with p = a*b = {a_ * b_} the minimum energy over the '
+                         f'internal variables is {mn}, not 0 ({len(wrong)} of {1 << (n + mm)} operand pairs)',
+                         repro=HDR + f'b = G.multiplication_circuit({n}, {m}); a, bb = {a_}, {b_}; n, m = {n}, {mm}\n'
+                         'fix = {f"a{i}": (a >> i) & 1 for i in range(n)}; fix.update({f"b{i}": (bb >> i) & 1 for i in range(m)})\n'
+                         'fix.update({f"p{i}": ((a * bb) >> i) & 1 for i in range(n + m)})\n'
+                         'b.fix_variables(fix)\nassert dimod.ExactSolver().sample(b).first.energy == 0\n')
+            ctx.tick('mult:operand-pairs', 1 << (n + mm))
         elif len(vs) <= 27:
             order = [f'a{i}' for i in range(n)] + [f'b{i}' for i in range(mm)] + pv + [v for v in vs if v[0] not in 'abp' or v.startswith('and')]
             order = list(dict.fromkeys(order))
@@ -260,7 +310,14 @@ def graph_cases(ctx, r, lines, checks):
             line = (f"mwis {rat(strength)} 2 {','.join(f'{lab(u)}~{lab(v)}' for u, v in edges) or '-'} "
                     + ('none' if nodes is None else (','.join(f'{lab(v)}=1' for v in nodes) or '-')))
         else:
-            wn = None if r.random() < .3 else [(v, F(r.randint(-2, 24), 8)) for v in nodes_all + extra if r.random() < .7]
+            # regimes of the node-weight list: none / empty / partial or full, with all weights < 1, = 1, > 1 or mixed;
+            # nodes that are not in the edge list may be listed too
+            regime = r.choice(['none', 'empty', 'lt1', 'lt1', 'eq1', 'gt1', 'mixed', 'mixed'])
+            wfun = {'lt1': lambda: F(r.randint(1, 7), 8), 'eq1': lambda: F(1), 'gt1': lambda: F(r.randint(9, 24), 8),
+                    'mixed': lambda: F(r.randint(-2, 24), 8)}.get(regime)
+            cover = r.choice([.3, .6, 1.0])       # fraction of the graph's nodes that get a listed weight
+            wn = (None if regime == 'none' else [] if regime == 'empty' else
+                  [(v, wfun()) for v in nodes_all + extra if r.random() < (cover if v in nodes_all else .4)])
             if wn and r.random() < .2:
                 wn.append((wn[0][0], F(r.randint(1, 16), 8)))     # a node listed twice: the last weight counts
             st = None if r.random() < .5 else r.choice([F(2), F(4), F(7, 2)])
@@ -304,13 +361,32 @@ def graph_cases(ctx, r, lines, checks):
                 bad = True
                 ctx.fail('property', site, 'variables', f'{vs!r} but the graph has {sorted(map(repr, expect_vars))}', repro=src)
             elif len(vs) <= 10:
+                es = []
                 for t in itertools.product((0, 1), repeat=len(vs)):
                     x = dict(zip(vs, t))
                     want = strength * sum(x[u] * x[v] for u, v in edges) - sum(weights_given.get(v, default_w) * x[v] for v in vs)
+                    es.append((energy(c, x), x))
                     if energy(c, x) != want:
                         bad = True
-                        ctx.fail('property', site, 'energy', f'{call}: at {x!r} energy {energy(c, x)} but strength*violations - weight = {want}', repro=src)
+                        ctx.fail('property', site, 'energy', f'{call}: at {x!r} energy {energy(c, x)} but strength*violations - weight = {want} '
+                                 f'(documented default strength = strength_multiplier x the largest weight, unlisted nodes weighing 1)', repro=src)
                         break
+                # with the default strength (multiplier >= 2, weights >= 0, some weight > 0) and for maximum_independent_set with
+                # strength > 1: every ground state is an independent set
+                allw_ = [weights_given.get(v, default_w) for v in vs]
+                if (not bad and which in ('mis', 'mwis') and allw_ and min(allw_) >= 0 and max(allw_) > 0
+                        and ((which == 'mwis' and st is None and mult >= 2) or strength > max(allw_))):
+                    emin = min(e for e, _ in es)
+                    for e, x in es:
+                        if e == emin and any(x[u] and x[v] for u, v in edges):
+                            bad = True
+                            ctx.fail('property', site, 'ground state is not an independent set',
+                                     f'{call}: {x!r} has the minimum energy {emin} but selects both ends of an edge', repro=src +
+                                     'emin = min(en(c, dict(zip(vs, t))) for t in itertools.product((0, 1), repeat=len(vs)))\n'
+                                     'for t in itertools.product((0, 1), repeat=len(vs)):\n'
+                                     '    x = dict(zip(vs, t))\n'
+                                     '    assert not (en(c, x) == emin and any(x[u] and x[v] for u, v in edges)), x\n')
+                            break
         lines.append(line)
         checks.append((site + ' vs Gen.independentSet/mwis', which, 'err' if b is None else 'ok ' + canon_bqm(b), src, bad))
 
